@@ -3,6 +3,7 @@ import Falcon.Lemmas.Karatsuba
 import Falcon.Model.Zp
 import Falcon.Lemmas.ZpZMod
 import Falcon.Lemmas.ZpProduct
+import Falcon.Lemmas.BabaiIdem
 
 /-!
 # C17 — Babai size reduction preserves the NTRU equation; the 32-bit path multiplies exactly
@@ -91,6 +92,19 @@ def invPassM (m : Nat) : List Nat → List Nat → Bool
   | a :: as, b :: bs => (a * b % m == 1) && decide (a < m) && decide (b < m) && invPassM m as bs
   | [], [] => true
   | _, _ => false
+
+/-- **a second reduction is the identity, for the reductions as modelled** (the floating-point quotient computation
+    included, bit for bit what the Rust code does): if `babai_reduce_bigint` returns Ok with (F', G'), reducing (F', G')
+    again returns Ok with the same pair -/
+theorem model_babai_reduce_bigint_idempotent (f g cF cG : List Int) (h : (Keygen.babaiBig f g cF cG).1 = true) :
+    Keygen.babaiBig f g (Keygen.babaiBig f g cF cG).2.1 (Keygen.babaiBig f g cF cG).2.2 =
+      (true, (Keygen.babaiBig f g cF cG).2.1, (Keygen.babaiBig f g cF cG).2.2) :=
+  Keygen.babaiBig_idempotent f g cF cG h
+
+/-- … and the same for `babai_reduce_i32` (Z_p transforms, i32 arithmetic), in both build modes -/
+theorem model_babai_reduce_i32_idempotent (chk : Bool) (f g cF cG a b : List Int)
+    (h : Keygen.babaiI32 chk f g cF cG = .ok (true, a, b)) : Keygen.babaiI32 chk f g a b = .ok (true, a, b) :=
+  Keygen.babaiI32_idempotent chk f g cF cG a b h
 
 /-- ψ² relations down the tree, pointwise inverses, canonical entries, ψ^1024 = −1, and every n·n⁻¹ = 1 -/
 def u32TablesOK : Bool :=
